@@ -205,11 +205,6 @@ def run(cfg: Config, monitor=None) -> Result:
                 res.tab = tab
                 if monitor is not None:
                     monitor.on_created(tab, res)
-            # name trunk nodes/branches in order
-            for b in tab:
-                res.names.branch(b)
-                for n in b:
-                    res.names.node(n)
             if monitor is not None:
                 monitor.on_trunk(tab, res)
             if cfg.drive == 'build' and monitor is None:
@@ -248,6 +243,12 @@ def run(cfg: Config, monitor=None) -> Result:
                 with frozen(clock):
                     monitor.on_finish(tab, res)
     return res
+
+def history_records(tab):
+    "Step records of a tableau's history with fresh first-seen names (same as Result.steps)."
+    r = Result()
+    r.tab = tab
+    return [step_record(r, e) for e in tab.history]
 
 class MonitorAbort(Exception):
     pass
